@@ -511,6 +511,21 @@ class Side:
             except Exception as e:  # noqa: BLE001 - the class (and text) is the observation
                 out[name] = ("raise", type(e).__name__, str(e)[:120])
 
+        # first of all (before any query below drops this app's process-local cache): the public resolve path (cache first) for the reference keys of what the OTHER apps store / may store: this
+        # app never stored them, so it must not be able to resolve them, whatever the others do meanwhile
+        from pynenc.client_data_store.base_client_data_store import _generate_key
+
+        for other in ("A", "B", "C"):
+            if other == self.role:
+                continue
+            for tag in ("d", "e"):
+                fk = _generate_key(a.serializer.serialize(tag * 1400 + other))
+                def foreign(fk: str = fk) -> Any:
+                    try:
+                        return ("resolved", digest(a.client_data_store.resolve(fk)))
+                    except KeyError:
+                        return "<absent>"  # the expected observation
+                q(f"cds.resolve_foreign[{other},{tag}]", foreign)
         # broker
         q("broker.count", a.broker.count_invocations)
         q("broker.queue", self._queue_peek)
